@@ -486,6 +486,48 @@ def rule_registration(ctx, rid="R12.6"):
     return r
 
 
+def rule_no_type_gate(ctx, rid="R12.1b"):
+    """The keyword hands every instance to the checker: format names may constrain non-strings (custom checkers)."""
+    prog = ctx.prog
+    calls = calls_of(prog)
+    r = ctx.rule(rid, "the format keyword passes every instance, of any JSON type, to the checker (no instance-type gate)", floor=1)
+    for f, drafts in format_keyword_funcs(prog).items():
+        ip = calls.param_with_role(f, "instance")
+        gates = []
+        for n in walk_body(f):
+            if isinstance(n, ast.Call) and isinstance(n.func, ast.Attribute) and n.func.attr == "is_type" and n.args and norm(n.args[0]) == ip:
+                gates.append(n)
+            if isinstance(n, ast.Call) and norm(n.func) == "isinstance" and n.args and norm(n.args[0]) == ip:
+                gates.append(n)
+        if gates:
+            for g in gates:
+                r.fail("%s|instance-type-gate|%s" % (f.qual, norm(g)[:40]), site(f, g),
+                       "the format keyword tests the instance's type (`%s`): a custom checker for non-strings is never consulted, so validation and conforms() disagree" % norm(g)[:50])
+        else:
+            r.ok(site(f), "no test of the instance's type")
+    return r
+
+
+def rule_check_stateless(ctx, rid="R12.3w"):
+    from ..effects import effects_of
+    prog = ctx.prog
+    eff = effects_of(prog)
+    r = ctx.rule(rid, "check() and conforms() keep no state: the verdict for (instance, format) depends on the registered function alone", floor=2)
+    for name in ("check", "conforms"):
+        f = find_method(prog, "_format.FormatChecker", name)
+        ws = eff.nonlocal_writes(f)
+        if ws:
+            for w, t in ws:
+                r.fail("%s|state|%s" % (f.qual, w.text[:40]), site(f, w.node), "%s writes %s (%s): earlier checks can change later verdicts" % (name, w.text[:50], t))
+        else:
+            r.ok(site(f), "no non-local write")
+        reads = [n for n in walk_body(f) if isinstance(n, ast.Attribute) and isinstance(n.value, ast.Name) and n.value.id == f.params[0]
+                 and n.attr not in ("checkers", "check", "conforms")]
+        for n in reads:
+            r.fail("%s|extra-state-read|%s" % (f.qual, n.attr), site(f, n), "%s consults self.%s besides the registry" % (name, n.attr))
+    return r
+
+
 def run(ctx):
     ctx.explanation = (
         "C12 is decided from the shape of three functions and the registry: R12.1 CFG must-pass-through of the "
@@ -496,6 +538,8 @@ def run(ctx):
         "R12.6 registration table sanity.")
     ctx.assume("custom checkers are opaque; their exceptions not listed in `raises` propagate by design")
     rule_off_without_checker(ctx)
+    rule_no_type_gate(ctx)
+    rule_check_stateless(ctx)
     rule_exact_conversion(ctx)
     rule_check(ctx)
     rule_conforms(ctx)
